@@ -825,6 +825,8 @@ class SAMIParser(HTMLParser):
 
     def _find_lang(self, attrs):
         for attr, value in attrs:
+            # an attribute without a value (<P class>, <P lang>) reads as the empty value
+            value = value or ''
             # if lang is an attribute of the tag
             if attr.lower() == 'lang':
                 return value[:2]
